@@ -127,6 +127,10 @@ func (its *document) patchEach(op jsondiff.Operation) errors.OrdaError {
 		return err
 	}
 	// its.L().Infof("target:%#v key:%v", target, key)
+	if t := target.getType(); t != TypeJSONObject && t != TypeJSONArray {
+		// the path leads below a value that holds no members: nothing can be added, removed or replaced there.
+		return errors.DatatypeInvalidPatch.New(its.L(), "no object or array at the parent path in JSONPatch:"+op.String())
+	}
 	switch op.Type {
 	case jsondiff.OperationAdd:
 		if op.Value == nil {
